@@ -1,4 +1,5 @@
 import Grass.Units
+import GrassProofs.Lemmas.Num
 /-
   C08 — Units convert by the CSS ratios and unit algebra is consistent.
   Property theorems about `Grass/Units.lean` and the *generated* tables
@@ -990,5 +991,371 @@ theorem C08_mul_div_units_agree (a b r : SN) (s t : Sym) :
         split at h
         · injection h with h; rw [← h]; exact this
         · cases h
+
+/-! # Round 3: the remaining operations of the statement
+
+  `math.compatible` on all units, the order relations across convertible units, `math.is-unitless`,
+  `math.min`/`math.max` returning the original operand, `math.unit` text, unknown units and the spelling of
+  unit names, and the f64 rounding of the table constants. -/
+
+/-- **`math.compatible` = convertibility by the CSS ratios, for ALL units** (known, unknown, unitless,
+    compound): `Unit::comparable` is true exactly when one side is unitless, the units are identical, or
+    both are known units that the hand-written ratio table relates. -/
+theorem C08_compatible_eq_spec_all (a b : U) : comparable a b = specComparable a b := by
+  obtain ⟨kn, ku, kc, kk⟩ := kind_facts
+  by_cases hb : b = .none
+  · subst hb; simp [comparable, specComparable]
+  by_cases ha : a = .none
+  · subst ha; simp [comparable, specComparable, U.kind, kn, selfOnly, hb]
+  cases a with
+  | none => exact absurd rfl ha
+  | one x =>
+    cases x with
+    | known u =>
+      cases b with
+      | none => exact absurd rfl hb
+      | one y =>
+        cases y with
+        | known v => exact C08_comparable_eq_spec u v
+        | unknown m =>
+          have hk := kk u (KU.mem_all u)
+          have := fun h e => selfOnly_known_other u h (Eq.symm e)
+          simp only [comparable, specComparable, U.kind, AU.kind, ku]
+          cases hs : selfOnly u.kind <;> simp_all [selfOnly]
+      | complex n d =>
+        have hk := kk u (KU.mem_all u)
+        have := fun h e => selfOnly_known_other u h (Eq.symm e)
+        simp only [comparable, specComparable, U.kind, AU.kind, kc]
+        cases hs : selfOnly u.kind <;> simp_all [selfOnly]
+    | unknown n =>
+      simp only [comparable, specComparable, U.kind, AU.kind, ku, selfOnly]
+      by_cases e : U.one (AU.unknown n) = b <;> simp [e, hb]
+  | complex n d =>
+    simp only [comparable, specComparable, U.kind, kc, selfOnly]
+    by_cases e : U.complex n d = b <;> simp [e, hb]
+example : comparable (.one (.unknown 0)) (.one (.unknown 0)) = true ∧ comparable (.one (.unknown 0)) (.one (.unknown 1)) = false ∧
+    comparable (.complex [.known .Px] [.known .S]) (.one (.known .Px)) = false ∧ comparable .none (.one (.known .Em)) = true := by
+  decide +kernel
+
+/-- every unit is comparable with itself -/
+theorem comparable_self (a : U) : comparable a a = true := by
+  rw [C08_compatible_eq_spec_all]; simp [specComparable]
+
+/-- unknown units: identical spellings are compatible, different ones (also the same letters in another
+    case, which are different `Unknown` payloads) are not, and no known unit is compatible with one. -/
+theorem C08_unknown_units (n m : Nat) (k : KU) :
+    comparable (.one (.unknown n)) (.one (.unknown m)) = decide (n = m) ∧
+    comparable (.one (.unknown n)) (.one (.known k)) = false ∧
+    comparable (.one (.known k)) (.one (.unknown n)) = false := by
+  refine ⟨?_, ?_, ?_⟩ <;> rw [C08_compatible_eq_spec_all] <;> simp [specComparable]
+example : (addSub false ⟨.fin 1, .one (.unknown 0)⟩ ⟨.fin 1, .one (.unknown 0)⟩).toOption = some ⟨.fin 2, .one (.unknown 0)⟩ ∧
+    (addSub false ⟨.fin 1, .one (.unknown 0)⟩ ⟨.fin 1, .one (.unknown 1)⟩).toOption = none := by decide +kernel
+
+/-! ## order relations across convertible units -/
+
+/-- **Trichotomy**: whenever two numbers can be compared, exactly one of `<`, equal-after-conversion
+    (within the Sass tolerance), `>` holds, `<=` is `<` or equal, `>=` is `>` or equal. -/
+theorem C08_cmp_trichotomy (a b : SN) (o : Ordering) (h : cmpSN a b = .ok (some o)) :
+    relSN .lt a b = .ok (o == .lt) ∧ relSN .gt a b = .ok (o == .gt) ∧
+    relSN .le a b = .ok (o == .lt || o == .eq) ∧ relSN .ge a b = .ok (o == .gt || o == .eq) ∧
+    ((o == .lt).toNat + (o == .eq).toNat + (o == .gt).toNat = 1) := by
+  cases o <;> simp [relSN, h, Except.map, relHolds]
+example : (cmpSN ⟨.fin 1, .one (.known .In)⟩ ⟨.fin 2, .one (.known .Cm)⟩).toOption = some (some .gt) := by decide +kernel
+
+/-- **`<` `<=` `>` `>=` across two different convertible units compare the left magnitude with the right
+    one converted into the LEFT unit** by the table constant `TABLE[left][right]` (whose exact value is the
+    CSS ratio: `C08_table_eq_css`). -/
+theorem C08_cmp_converts_right_operand (x y y' : D) (u v : KU) (c : Rat) (huv : u ≠ v)
+    (hf : factorF64 u v = some c) (hm : D.mul y (.fin c) = some y') :
+    cmpSN ⟨x, .one (.known u)⟩ ⟨y, .one (.known v)⟩ = .ok (cmpD false x y') := by
+  have hc : comparable (.one (.known u)) (.one (.known v)) = true := by
+    rw [C08_comparable_iff_entry]
+    have : (factorSym u v).isSome = true := by
+      rw [isSome_factorSym]; unfold factorF64 at hf; cases h : tableGet u v <;> simp_all
+    simp [this]
+  have hvu : v ≠ u := fun h => huv h.symm
+  simp [cmpSN, hc, convert, hf, hm, huv, hvu]
+example : factorF64 .In .Cm = some (rnd53 (1 / rnd53 (127 / 50))) := by decide +kernel
+
+theorem convert_not_incompatible (n : D) (f t : U) : convert n f t ≠ .error .incompatible := by
+  unfold convert
+  repeat' split
+  all_goals (intro h; cases h)
+
+/-- "Incompatible units" is raised by `a < b` exactly when it is raised by `b < a` -/
+theorem C08_cmp_error_symm (a b : SN) : (cmpSN a b = .error .incompatible) ↔ (cmpSN b a = .error .incompatible) := by
+  have key : ∀ a b : SN, cmpSN a b = .error .incompatible → comparable a.unit b.unit = false := by
+    intro a b h
+    cases hc : comparable a.unit b.unit with
+    | false => rfl
+    | true =>
+      exfalso
+      unfold cmpSN at h
+      simp only [hc, Bool.not_true, Bool.false_eq_true, if_false] at h
+      split at h
+      · cases h
+      · have := convert_not_incompatible b.num b.unit a.unit
+        cases hv : convert b.num b.unit a.unit with
+        | ok c => rw [hv] at h; cases h
+        | error e => rw [hv] at h; simp only at h; injection h with h; subst h; exact this hv
+  constructor
+  · intro h; have := key a b h; rw [C08_comparable_symm] at this; simp [cmpSN, this]
+  · intro h; have := key b a h; rw [C08_comparable_symm] at this; simp [cmpSN, this]
+
+/-! ## `math.min` / `math.max` -/
+
+/-- **`math.min`/`math.max` of two numbers return one of the ORIGINAL operands** (magnitude and unit
+    untouched — nothing is converted in the result); the second is chosen exactly when it compares
+    strictly below / above the first after conversion into its own unit. -/
+theorem C08_minmax_returns_operand (isMax : Bool) (a b r : SN) (h : minMax isMax a b = .ok r) :
+    ∃ o, cmpSN b a = .ok o ∧
+      r = (if o = some (if isMax then Ordering.gt else Ordering.lt) then b else a) ∧ (r = a ∨ r = b) := by
+  unfold minMax at h
+  cases hc : cmpSN b a with
+  | error e => rw [hc] at h; cases h
+  | ok o =>
+    rw [hc] at h
+    simp only at h
+    injection h with h
+    refine ⟨o, rfl, h.symm, ?_⟩
+    rw [← h]
+    by_cases hh : o = some (if isMax = true then Ordering.gt else Ordering.lt)
+    · exact Or.inr (by simp [hh])
+    · exact Or.inl (by simp [hh])
+example : (minMax false ⟨.fin 1, .one (.known .In)⟩ ⟨.fin 2, .one (.known .Cm)⟩).toOption = some ⟨.fin 2, .one (.known .Cm)⟩ ∧
+    (minMax true ⟨.fin 1, .one (.known .In)⟩ ⟨.fin 2, .one (.known .Cm)⟩).toOption = some ⟨.fin 1, .one (.known .In)⟩ := by
+  decide +kernel
+
+/-! ## `math.is-unitless` of a quotient of single units -/
+
+theorem convFactorF_isSome_iff (u v : AU) : (convFactorF v u).isSome = comparable (.one u) (.one v) := by
+  by_cases e : v = u
+  · subst e; simp [convFactorF, comparable_self]
+  · have e' : u ≠ v := fun h => e h.symm
+    cases u with
+    | known ku =>
+      cases v with
+      | known kv =>
+        have e2 : ku ≠ kv := fun h => e' (by rw [h])
+        rw [C08_comparable_iff_entry, isSome_factorSym]
+        simp only [convFactorF, e, if_false, factorF64, e2, decide_false, Bool.false_or]
+        cases tableGet ku kv <;> rfl
+      | unknown m => rw [(C08_unknown_units m m ku).2.2]; simp [convFactorF, e]
+    | unknown n =>
+      cases v with
+      | known kv => rw [(C08_unknown_units n n kv).2.1]; simp [convFactorF, e]
+      | unknown m =>
+        rw [(C08_unknown_units n m .Px).1]
+        have : n ≠ m := fun h => e' (by rw [h])
+        simp [convFactorF, e, this]
+
+/-- **Dividing two single-unit numbers gives a unitless number exactly when the units are convertible**
+    (`math.is-unitless(math.div(a, b)) == math.compatible(a, b)` for single units). -/
+theorem C08_div_single_units_unitless_iff (x y : D) (u v : AU) (r : SN)
+    (h : divSN ⟨x, .one u⟩ ⟨y, .one v⟩ = .ok r) : isUnitless r = comparable (.one u) (.one v) := by
+  have hf := convFactorF_isSome_iff u v
+  unfold divSN at h
+  cases hp : D.div x y with
+  | none => simp [hp] at h
+  | some p =>
+    simp only [hp] at h
+    cases hc : comparable (.one u) (.one v) with
+    | false =>
+      simp [multiplyUnits, multiplyUnitsG, U.parts, U.invert, U.mk, anyConvertible, hc] at h
+      rw [← h]; simp [isUnitless]
+    | true =>
+      rw [hc] at hf
+      obtain ⟨f, hf⟩ := Option.isSome_iff_exists.1 hf
+      simp [multiplyUnits, multiplyUnitsG, U.parts, U.invert, U.mk, anyConvertible, hc, cancelLoopG, removeFirstG, hf] at h
+      split at h
+      · injection h with h; rw [← h]; simp [isUnitless]
+      · cases h
+example : (divSN ⟨.fin 1, .one (.known .In)⟩ ⟨.fin 1, .one (.known .Em)⟩).toOption =
+    some ⟨.fin 1, .complex [.known .In] [.known .Em]⟩ := by decide +kernel
+
+/-- `1foo * 1bar / 1foo`: the unit that was multiplied in cancels again, whatever the units are. -/
+theorem C08_mul_then_div_cancels (x y z p q : D) (a b : AU) (hp : D.mul x y = some p) (hq : D.div p z = some q)
+    (hq1 : D.div q (.fin 1) = some q) :
+    (mulSN ⟨x, .one a⟩ ⟨y, .one b⟩).bind (fun r => divSN r ⟨z, .one a⟩) = .ok ⟨q, .one b⟩ := by
+  rw [C08_mul_single_units x y a b p hp]
+  have hs : comparable (.one a) (.one a) = true := comparable_self _
+  simp [Except.bind, divSN, hq, multiplyUnits, multiplyUnitsG, U.parts, U.invert, U.mk, anyConvertible, hs,
+    cancelLoopG, removeFirstG, convFactorF, divByF, hq1]
+example : ((mulSN ⟨.fin 1, .one (.unknown 0)⟩ ⟨.fin 1, .one (.unknown 2)⟩).bind
+    (fun r => divSN r ⟨.fin 1, .one (.unknown 0)⟩)).toOption = some ⟨.fin 1, .one (.unknown 2)⟩ := by decide +kernel
+
+/-! ## the f64 constants -/
+
+theorem tableF64Close_true : tableF64Close = true := by decide +kernel
+theorem tableRoundtripClose_true : tableRoundtripClose = true := by decide +kernel
+
+
+/-- **Every executed constant of the generated table** (each literal and each `*` `/` of the Rust constant
+    expression rounded to f64, `PI` the f64 constant, in evaluation order) **is positive and within a relative
+    2⁻⁵¹ of the exact value of the expression** (π by a 30-digit enclosure), for the whole table. -/
+theorem C08_table_f64_close (t f : KU) (e : CExpr) (h : tableGet t f = some e) : f64EntryClose e = true := by
+  have hm := lookupRow_mem f e _ h
+  have h0 : (KU.all.all fun t => (tableRow t).all fun p => f64EntryClose p.2) = true := tableF64Close_true
+  have h1 := List.all_eq_true.1 h0 t (KU.mem_all t)
+  have h2 := List.all_eq_true.1 h1 (f, e) hm
+  simpa using h2
+example : (tableGet .Rad .Turn).map f64Of = some (884279719003555 / 140737488355328) := by decide +kernel
+
+/-- the two executed constants of every convertible pair multiply to 1 within 2⁻⁵² -/
+theorem C08_table_f64_pair_product (t f : KU) (a b : Rat) (h1 : factorF64 t f = some a) (h2 : factorF64 f t = some b) :
+    absQ (a * b - 1) * 4503599627370496 ≤ 1 := by
+  have := all₂ (P := roundtripPairClose) tableRoundtripClose_true t f
+  simpa [roundtripPairClose, h1, h2] using this
+
+theorem absQ_add_le (a b : Rat) : absQ (a + b) ≤ absQ a + absQ b := by
+  unfold absQ; split <;> split <;> split <;> grind
+
+theorem absQ_mul (a b : Rat) : absQ (a * b) = absQ a * absQ b := by
+  by_cases ha : a < 0 <;> by_cases hb : b < 0
+  all_goals (have ha0 : a < 0 ∨ 0 ≤ a := by grind)
+  all_goals (have hb0 : b < 0 ∨ 0 ≤ b := by grind)
+  · have : 0 ≤ (-a) * (-b) := Rat.mul_nonneg (by grind) (by grind)
+    rw [absQ_of_neg a ha, absQ_of_neg b hb]; unfold absQ; split <;> grind
+  · have : 0 ≤ (-a) * b := Rat.mul_nonneg (by grind) (by grind)
+    rw [absQ_of_neg a ha]
+    have hb' : absQ b = b := by unfold absQ; split <;> grind
+    rw [hb']; unfold absQ; split <;> grind
+  · have : 0 ≤ a * (-b) := Rat.mul_nonneg (by grind) (by grind)
+    rw [absQ_of_neg b hb]
+    have ha' : absQ a = a := by unfold absQ; split <;> grind
+    rw [ha']; unfold absQ; split <;> grind
+  · have : 0 ≤ a * b := Rat.mul_nonneg (by grind) (by grind)
+    have ha' : absQ a = a := by unfold absQ; split <;> grind
+    have hb' : absQ b = b := by unfold absQ; split <;> grind
+    rw [ha', hb']; unfold absQ; split <;> grind
+
+theorem rnd53_relative' (q : Rat) : absQ (rnd53 q - q) * 9007199254740992 ≤ absQ q := by
+  by_cases hq : q = 0
+  · subst hq; have : rnd53 0 = 0 := by decide +kernel
+    rw [this]; decide +kernel
+  · exact rnd53_relative q hq
+
+/-- two f64 multiplications by constants whose product is 1 within 2⁻⁵² move `x` by at most `2⁻⁵⁰·|x|` -/
+theorem roundtrip_bound (x a b : Rat) (hab : absQ (a * b - 1) * 4503599627370496 ≤ 1) :
+    absQ (rnd53 (rnd53 (x * a) * b) - x) * 1125899906842624 ≤ absQ x := by
+  have r1 := rnd53_relative' (x * a)
+  have r2 := rnd53_relative' (rnd53 (x * a) * b)
+  generalize hy : rnd53 (x * a) = y at *
+  generalize hz : rnd53 (y * b) = z at *
+  -- z − x = e2 + e1·b + x·(ab − 1)
+  have dec : z - x = (z - y * b) + ((y - x * a) * b + x * (a * b - 1)) := by grind
+  have t1 := absQ_add_le (z - y * b) ((y - x * a) * b + x * (a * b - 1))
+  have t2 := absQ_add_le ((y - x * a) * b) (x * (a * b - 1))
+  have t3 : absQ (y * b) ≤ absQ (x * (a * b)) + absQ ((y - x * a) * b) := by
+    have : y * b = x * (a * b) + (y - x * a) * b := by grind
+    rw [this]; exact absQ_add_le _ _
+  have t4 : absQ (a * b) ≤ absQ (a * b - 1) + 1 := by
+    have h := absQ_add_le (a * b - 1) 1
+    have e : a * b - 1 + 1 = a * b := by grind
+    rw [e] at h
+    have : absQ 1 = 1 := by decide +kernel
+    rw [this] at h; exact h
+  rw [← dec] at t1
+  have m1 : absQ ((y - x * a) * b) = absQ (y - x * a) * absQ b := absQ_mul _ _
+  have m2 : absQ (x * (a * b - 1)) = absQ x * absQ (a * b - 1) := absQ_mul _ _
+  have m3 : absQ (x * (a * b)) = absQ x * absQ (a * b) := absQ_mul _ _
+  have m4 : absQ (x * a) * absQ b = absQ x * absQ (a * b) := by
+    rw [absQ_mul x a, absQ_mul a b, Rat.mul_assoc]
+  have nx := absQ_nonneg x
+  have nb := absQ_nonneg b
+  -- R·2^53 ≤ Q
+  have s1 : absQ (y - x * a) * absQ b * 9007199254740992 ≤ absQ x * absQ (a * b) := by
+    have := Rat.mul_le_mul_of_nonneg_right r1 nb
+    rw [m4] at this
+    have e : absQ (y - x * a) * absQ b * 9007199254740992 = absQ (y - x * a) * 9007199254740992 * absQ b := by grind
+    rw [e]; exact this
+  -- W·2^52 ≤ X
+  have s2 : absQ x * absQ (a * b - 1) * 4503599627370496 ≤ absQ x := by
+    have := Rat.mul_le_mul_of_nonneg_left hab nx
+    have e : absQ x * absQ (a * b - 1) * 4503599627370496 = absQ x * (absQ (a * b - 1) * 4503599627370496) := by grind
+    rw [e]; simpa using this
+  -- Q ≤ X + W
+  have s3 : absQ x * absQ (a * b) ≤ absQ x * absQ (a * b - 1) + absQ x := by
+    have := Rat.mul_le_mul_of_nonneg_left t4 nx
+    have e : absQ x * (absQ (a * b - 1) + 1) = absQ x * absQ (a * b - 1) + absQ x := by grind
+    rw [e] at this; exact this
+  rw [m1] at t2 t3
+  rw [m2] at t2
+  rw [m3] at t3
+  generalize absQ (z - x) = E at *
+  generalize absQ (z - y * b) = E2 at *
+  generalize absQ (y * b) = YB at *
+  generalize absQ (y - x * a) * absQ b = R at *
+  generalize absQ x * absQ (a * b - 1) = W at *
+  generalize absQ x * absQ (a * b) = Q at *
+  generalize absQ x = X at *
+  grind
+
+theorem convert_fin (x y a : Rat) (f t : KU) (hft : f ≠ t) (ha : factorF64 t f = some a)
+    (h : convert (.fin x) (.one (.known f)) (.one (.known t)) = .ok (.fin y)) : y = rnd53 (x * a) := by
+  have e : ¬ (U.one (AU.known f) = U.one (AU.known t)) := by
+    intro h; injection h with h; injection h with h; exact hft h
+  simp only [convert, e, ha] at h
+  cases hm : D.mul (.fin x) (.fin a) with
+  | none => simp [hm] at h
+  | some r =>
+    simp only [hm] at h
+    injection h with h; subst h
+    simp [D.mul, D.isInf, D.toRat?, D.ofExact] at hm
+    by_cases h0 : x * a = 0
+    · have hr : rnd53 0 = 0 := by decide +kernel
+      rw [h0, hr]
+      simp [h0, D.zero] at hm
+      split at hm
+      · cases hm; rfl
+      · cases hm
+    · simp [h0, D.ofNonzero] at hm
+      split at hm
+      · exfalso; simp only [D.inf] at hm; split at hm <;> cases hm
+      · split at hm
+        · cases hm
+        · injection hm with hm; injection hm with hm; exact hm.symm
+
+/-- **There and back in floating point**: converting a finite `x` from a unit into a different convertible
+    unit and back with the executed f64 table constants (two rounded multiplications,
+    `Number::convert`) changes it by at most `2⁻⁵⁰·|x|`; for `|x| ≤ 10⁴` that is less than the `10⁻¹¹` distance
+    tolerance of Sass equality.  (Sass `==` additionally compares `10⁻¹¹` buckets; bucket boundaries are not
+    covered by this bound.) -/
+theorem C08_roundtrip_f64_within_tolerance (u v : KU) (huv : u ≠ v) (x y z : Rat)
+    (h1 : convert (.fin x) (.one (.known u)) (.one (.known v)) = .ok (.fin y))
+    (h2 : convert (.fin y) (.one (.known v)) (.one (.known u)) = .ok (.fin z)) :
+    absQ (z - x) * 1125899906842624 ≤ absQ x ∧ (absQ x ≤ 10000 → absQ (z - x) * 100000000000 < 1) := by
+  have hvu : v ≠ u := fun h => huv h.symm
+  have e1 : ¬ (U.one (AU.known u) = U.one (AU.known v)) := by
+    intro h; injection h with h; injection h with h; exact huv h
+  have e2 : ¬ (U.one (AU.known v) = U.one (AU.known u)) := by
+    intro h; injection h with h; injection h with h; exact hvu h
+  cases ha : factorF64 v u with
+  | none => simp [convert, e1, ha] at h1
+  | some a =>
+    cases hb : factorF64 u v with
+    | none => simp [convert, e2, hb] at h2
+    | some b =>
+      have hy := convert_fin x y a u v huv ha h1
+      have hz := convert_fin y z b v u hvu hb h2
+      have hp := C08_table_f64_pair_product v u a b ha hb
+      have key := roundtrip_bound x a b hp
+      rw [← hy, ← hz] at key
+      refine ⟨key, ?_⟩
+      intro hx
+      generalize absQ (z - x) = E at *
+      generalize absQ x = X at *
+      grind
+theorem toOption_ok {ε α : Type} {e : Except ε α} {a : α} (h : e.toOption = some a) : e = .ok a := by
+  cases e <;> simp_all [Except.toOption]
+/-- hypotheses satisfiable: 3cm → in → cm comes back exactly … -/
+example : convert (.fin 3) (.one (.known .Cm)) (.one (.known .In)) = .ok (.fin (rnd53 (3 * rnd53 (1 / rnd53 (127 / 50))))) ∧
+    convert (.fin (rnd53 (3 * rnd53 (1 / rnd53 (127 / 50))))) (.one (.known .In)) (.one (.known .Cm)) = .ok (.fin 3) :=
+  ⟨toOption_ok (by decide +kernel), toOption_ok (by decide +kernel)⟩
+/-- … while 1in → cm → in comes back as 1 − 2⁻⁵³ (the bound is about a real rounding error) -/
+example : convert (.fin 1) (.one (.known .In)) (.one (.known .Cm)) = .ok (.fin (rnd53 (127 / 50))) ∧
+    convert (.fin (rnd53 (127 / 50))) (.one (.known .Cm)) (.one (.known .In)) = .ok (.fin (9007199254740991 / 9007199254740992)) :=
+  ⟨toOption_ok (by decide +kernel), toOption_ok (by decide +kernel)⟩
+
 
 end Grass.Units
